@@ -416,8 +416,9 @@ impl RowProof {
             );
         }
 
-        let length = self.end_row - self.start_row + 1;
-        if length as usize != self.proofs.len() {
+        // computed in `usize`: the span of `0..=u16::MAX` doesn't fit in `u16`
+        let length = usize::from(self.end_row - self.start_row) + 1;
+        if length != self.proofs.len() {
             bail_verification!(
                 "length based on start_row and end_row ({}) != length of proofs ({})",
                 length,
